@@ -270,6 +270,8 @@ type treeGen struct {
 	noVoidS   map[string]bool // names never to generate
 	plain     bool            // canonical attribute syntax only
 	comments  bool            // also generate comment leaves (each with its own marker)
+	skipLike  map[string]bool // elements whose content the policy may skip
+	inner     []string        // preferred children of such elements (nil: no bias)
 	voidEnds  bool            // void elements are now and then followed by their own end tag
 	selfClose bool            // childless non-void elements are now and then written <el/>
 }
@@ -337,6 +339,21 @@ func (g *treeGen) gen(depth int) *node {
 		return n
 	}
 	nk := rapid.IntRange(0, 3).Draw(g.t, "nk")
+	if g.inner != nil && g.skipLike[el] && depth > 1 {
+		// inside an element whose content may be skipped: at least one child, and children that are
+		// themselves skip-content or allowed elements more often than not (nesting of regions, allowed
+		// markup inside a region)
+		nk = rapid.IntRange(1, 3).Draw(g.t, "nkSkip")
+		saved := g.els
+		if rapid.IntRange(0, 2).Draw(g.t, "innerBias") != 0 {
+			g.els = g.inner
+		}
+		for i := 0; i < nk; i++ {
+			n.kids = append(n.kids, g.gen(depth-1))
+		}
+		g.els = saved
+		return n
+	}
 	for i := 0; i < nk; i++ {
 		n.kids = append(n.kids, g.gen(depth-1))
 	}
@@ -391,8 +408,17 @@ func genTree(t *rapid.T, m *Model, o *treeOpts) string {
 	g := &treeGen{t: t}
 	g.els = append(append(append([]string{}, elemPool...), els...), els...)
 	g.els = append(g.els, "my-zzz", "x-q", "h3", "object", "object", "nostyle", "frameset", "sx", "tagged", "x-caf\u00e9", "my-\u00fc", "x-\"q", "my-a\\b")
+	g.skipLike = map[string]bool{}
 	for _, e := range sortedKeys(m.skip) {
 		g.els = append(g.els, e)
+		if !rawTextEls[e] && !voidEls[e] {
+			g.skipLike[e] = true
+			g.inner = append(g.inner, e)
+		}
+	}
+	g.inner = append(g.inner, els...)
+	if len(g.inner) == 0 {
+		g.inner = nil
 	}
 	depth := 4
 	if o != nil {
